@@ -346,7 +346,7 @@ func (c *child) proofBytes(tr *triple) {
 			}
 		}
 		// (iii) bit flips
-		n := c.r.Pick(700, 20000)
+		n := c.r.Pick(300, 20000)
 		for f := 0; f < n; f++ {
 			b := append([]byte{}, enc...)
 			nb := 1 + c.rng.IntN(3)
@@ -536,7 +536,7 @@ func (c *child) witnessBytes(tr *triple) {
 			binary.BigEndian.PutUint32(b[8:], vl)
 			try("vector-prefix", fmt.Sprintf("%s vector prefix %d->%d", src.name, nvec, vl), b, true)
 		}
-		for f := 0; f < c.r.Pick(300, 5000); f++ {
+		for f := 0; f < c.r.Pick(150, 5000); f++ {
 			b := append([]byte{}, enc...)
 			bit := c.rng.IntN(len(b) * 8)
 			b[bit/8] ^= 1 << (bit % 8)
